@@ -217,15 +217,15 @@ def generate_corpus(copy, genbin, corpus, only=None):
 def write_registry(copy, reg):
     d = os.path.join(copy, "verifharness", "corpus")
     os.makedirs(d, exist_ok=True)
-    lines = ["// Code generated by verifctl. DO NOT EDIT.", "package corpus", "", "import ("]
+    lines = ["// Code generated by verifctl. DO NOT EDIT.", "package corpus", "", "import (", '\t"reflect"', ""]
     for i, ent in enumerate(reg):
         lines.append('\tc%d "github.com/openconfig/ygot/verifcorpus/%s"' % (i, ent["name"]))
     lines.append(")")
     lines.append("")
     lines.append("func init() {")
     for i, ent in enumerate(reg):
-        lines.append('\tRegister(&Pkg{Name: %s, SchemaFn: c%d.Schema, GlobalTree: func() map[string]*yangEntry { return c%d.SchemaTree }, SetGlobalTree: func(m map[string]*yangEntry) { c%d.SchemaTree = m }, Unmarshal: c%d.Unmarshal, Compressed: %s, Tags: %s})' % (
-            json.dumps(ent["name"]), i, i, i, i, "true" if ent.get("compressed") else "false",
+        lines.append('\tRegister(&Pkg{Name: %s, SchemaFn: c%d.Schema, GlobalTree: func() map[string]*yangEntry { return c%d.SchemaTree }, SetGlobalTree: func(m map[string]*yangEntry) { c%d.SchemaTree = m }, Unmarshal: c%d.Unmarshal, BinaryType: reflect.TypeOf(c%d.Binary(nil)), Compressed: %s, Tags: %s})' % (
+            json.dumps(ent["name"]), i, i, i, i, i, "true" if ent.get("compressed") else "false",
             "[]string{" + ",".join(json.dumps(t) for t in ent.get("tags", [])) + "}"))
     lines.append("}")
     with open(os.path.join(d, "registry_gen.go"), "w") as f:
